@@ -7,7 +7,9 @@ use crate::e2e_gen::*;
 use crate::session::Session;
 use crate::util::*;
 
-pub fn generate(s: &mut Session, tier: &str, rng: &mut Rng) {
+/// one Shadowsocks-2022 handshake presented by n threads at once to codecs sharing a server context:
+/// exactly one is accepted; presented again (all replays): none.  (Also part of C10: "also when copies arrive concurrently".)
+pub fn race_cases(s: &mut Session, tier: &str, rng: &mut Rng) {
     let thorough = tier == "thorough";
     // ---- codec level: one handshake presented by n threads at once
     for (cipher, keylen) in SS_CIPHERS.iter().filter(|c| c.1 > 0) {
@@ -32,6 +34,11 @@ pub fn generate(s: &mut Session, tier: &str, rng: &mut Rng) {
         }
         s.mark_nontrivial();
     }
+}
+
+pub fn generate(s: &mut Session, tier: &str, rng: &mut Rng) {
+    let thorough = tier == "thorough";
+    race_cases(s, tier, rng);
     // ---- codec level: concurrent udp sessions through the shared cipher cache
     for (cipher, keylen) in SS_CIPHERS {
         s.begin_case(&format!("udp-sessions:{}", cipher));
